@@ -745,7 +745,9 @@ def run_history(kind, init, ops):
     fail = fail or state_failures(kind, sn)
     parts = ['init ok ' + sn.text]
     tainted = False
+    originals = []      # (op index of the deepcopy, the object it was taken from, its observation then)
     for k, op in enumerate(ops):
+        prev_obj, prev_sn = obj, sn
         try:
             obj, status, sn, f, tainted = real_step(kind, obj, op, sn, pad, tainted)
         except OracleHit as h:
@@ -754,6 +756,21 @@ def run_history(kind, init, ops):
             return ' ; '.join(parts), fail, k, k + 1
         if f and not fail:
             fail = 'op %d %s: %s' % (k, json.dumps(op), f)
+        # "after any sequence of … deepcopy …": the object a deepcopy was taken from is an EventSequence too and must
+        # keep satisfying the statement whatever is later done to the copy (a copy sharing storage breaks it)
+        if not fail and not tainted:
+            for k0, o0, sn0 in originals:
+                try:
+                    now = observe(kind, o0)
+                    bad = state_failures(kind, now) or (now.text != sn0.text and 'it changed')
+                except Exception as e:  # pylint: disable=broad-except
+                    bad = 'observing it raised %s: %s' % (type(e).__name__, e)
+                if bad:
+                    fail = ('op %d %s: the object deep-copied at op %d is no longer consistent after this operation '
+                            'on the copy: %s' % (k, json.dumps(op), k0, bad))
+                    break
+        if op[0] == 'dc' and status == 'ok' and obj is not prev_obj and not tainted:
+            originals.append((k, prev_obj, prev_sn))
         parts.append(status + ' ' + sn.text)
     return ' ; '.join(parts), fail, len(ops), len(ops)
 
